@@ -2,7 +2,7 @@
     [bpe_tokenize c s] = [BPETokenizer::new(c)] + [tokenize(s, true)] ([None] = constructor error),
     [bpe_decode tbl ids] = [de_tokenize(ids, true)] as bytes, [eff_table c] = the merge table after
     the [max_vocab_size] cut. No well-formedness of the table is needed. *)
-From TU Require Import Base BPE_Model C02_Model C02_Inv C02_Loop C02_Proofs C02_Check.
+From TU Require Import Base BPE_Model C01_Model C02_Model C02_Inv C02_Loop C02_Proofs C02_Check C02_String.
 Open Scope N_scope.
 
 (** Lossless: decoding the ids gives the UTF-8 bytes of the text without its trailing whitespace. *)
@@ -25,6 +25,22 @@ Theorem bpe_utf8_prefix : forall c s ids, Forall valid_cp s -> bpe_tokenize c s 
   exists p t, s = p ++ t /\ forallb is_ws t = true /\ bpe_decode (eff_table c) ids = utf8s p.
 Proof. exact bpe_utf8_prefix_l. Qed.
 Print Assumptions bpe_utf8_prefix.
+
+(** String level: the strict UTF-8 decoder of C01 ([utf8_decode] = [String::from_utf8]) applied to the
+    decoded bytes returns the text itself without its trailing whitespace, for every text of Unicode
+    scalar values and every table. *)
+Theorem bpe_lossless_string : forall c s, scalars s = true -> config_ok c = true ->
+  exists ids, bpe_tokenize c s = Some ids /\
+    utf8_decode (bpe_decode (eff_table c) ids) = Some (strip_trailing_ws s) /\
+    Forall (fun id => id < vocab_size c) ids.
+Proof. exact bpe_lossless_string_l. Qed.
+Print Assumptions bpe_lossless_string.
+
+(** ... and exactly the text when it does not end in whitespace. *)
+Theorem bpe_lossless_string_exact : forall c s ids t ch, scalars s = true -> bpe_tokenize c s = Some ids ->
+  s = t ++ [ch] -> is_ws ch = false -> utf8_decode (bpe_decode (eff_table c) ids) = Some s.
+Proof. exact bpe_exact_string_l. Qed.
+Print Assumptions bpe_lossless_string_exact.
 
 (** Every emitted id (prefix, body, suffix) is a vocabulary id. *)
 Theorem bpe_ids_valid : forall c s ids, Forall valid_cp s -> bpe_tokenize c s = Some ids ->
